@@ -7,7 +7,7 @@ for d in seeded/*${SEL}*/; do
   id=$(basename "$d"); prop=$(python3 -c "import json;print(json.load(open('$d/meta.json'))['property'])")
   [ -f harness/$(echo $prop | tr A-Z a-z).py ] || { echo "$id: no harness for $prop"; continue; }
   if ! git -C /repo apply "$PWD/$d/patch.diff" 2>/dev/null; then echo "$id: patch does not apply"; continue; fi
-  out=$(bin/check $prop $TIER --no-evidence 2>&1); rc=$?
+  out=$(VERIF_FAIL_FAST=1 bin/check $prop $TIER --no-evidence 2>&1); rc=$?
   git -C /repo checkout -- . 
   echo "$id: rc=$rc $(echo "$out" | grep -c '^VIOLATION') violations; $(echo "$out" | grep -m1 'violated obligation' | cut -c1-160)"
 done
